@@ -39,12 +39,13 @@ CLAIMED = {
             "is checked by exact correspondence through operations.refine_knotvector on curves, surfaces and volumes (all direction subsets, densities 1..2) and at helper level with explicit knot lists.",
             "Not proved: volumes (only the untouched directions; shape preservation by oracle + correspondence); A5.4's loops themselves are not modelled (specification-level model), so 'A5.4 as coded = fold of insertions' rests on the correspondence. F-05a / F-05b (helper-level refinement with explicit knot lists) were reported with replays and fixed."),
     'C06': ("7/C06",
-            "Lean theorems: removing r knots at the position where r copies were inserted restores the knot vector; sizes. The model knotRemoval mirrors A5.8 as coded after "
-            "the repair of defect F-06 (fix: commit in /repo; the check reported the violation with a replay on the pinned tree first) and is tied to operations.remove_knot / "
-            "remove_knot methods by exact correspondence, including the removal of knots that are not removable. The exact oracle checks insert r / remove t<=r in every "
-            "direction of curves, surfaces, volumes: knot vector, sizes, evaluated points, and restoration of every control point when t = r.",
-            "Not proved in Lean: insert-then-remove restores the control points for all inputs (checked by oracle + correspondence only); 'whenever removable at all'. "
-            "Volumes: only removable knots generated (the code derives one removability flag from the first iso-curve)."),
+            "Lean theorems (all degrees, positions, prior multiplicities, counts, tolerances >= 0): knot removal A5.8 as coded INVERTS knot insertion A5.1 - r insertions then t <= r removals (called with the span k+r and multiplicity s+r that find_span_linear / "
+            "find_multiplicity are proved to return on the refined knot vector) yield exactly the control net of r-t insertions, t = r the original net, for curves, both surface directions and all three volume directions; knot vector and net sizes drop by exactly "
+            "the count (net length unconditionally); evaluated curve points are unchanged for every parameter (via C04); operations.insert_knot followed by operations.remove_knot returns the original curve object (Shape-level round trip). "
+            "The model knotRemoval mirrors the repaired code (F-06; the check reported the violation with a replay on the pinned tree first) and is tied to operations.remove_knot / remove_knot methods by exact correspondence, including the removal of knots that are not "
+            "removable and removals in several directions in one call. The exact oracle additionally checks removal after refinement, insert r / remove t <= r in every direction of curves, surfaces, volumes: knot vector, sizes, evaluated points, control points.",
+            "Not proved in Lean: removability of knots not inserted immediately before the removal (refinement; inserted knots after which other knots were inserted; 'whenever removable at all' needs uniqueness of B-spline coefficients) - oracle + correspondence; "
+            "the Shape-level round trip and the evaluated-point corollary are stated for curves only (surfaces / volumes: net-level theorem + C04). Volumes: only removable knots generated (the code derives one removability flag from the first iso-curve)."),
     'C07': ("7/C07",
             "Lean theorems (curves, span level): left_piece_coincides / right_piece_coincides - the two pieces as split_curve builds them (knot slices + extra copies of the parameter, net slices [:m-p+1] and [m-p:]) evaluate like the refined curve (which by C04 is the original) on every span left / right of the split parameter; normalized_piece_coincides - the normalisation of a piece's knot vector is the affine map of its domain; split at a domain end is rejected; decomposition of a Bezier shape returns it unchanged; window locality and affine invariance of A2.2. "
             "The model (insertion to multiplicity p, knot/net slices, "
